@@ -26,6 +26,8 @@ pub enum Op {
     BitFlip { bit: usize },
     SetBytes { offset: usize, data: Vec<u8> },
     Replace(Vec<u8>),
+    /// Several content faults landing together (e.g. a duplicated record that also carries a bad index).
+    Multi(Vec<Op>),
     Fill { len: usize, byte: u8 },
     RandomFill { len: usize, seed: u64 },
     Remove,
@@ -99,6 +101,11 @@ pub fn apply_fault(content: &mut Option<Vec<u8>>, op: &Op) -> bool {
             }
         }
         Op::Replace(b) => *content = Some(b.clone()),
+        Op::Multi(ops) => {
+            for o in ops {
+                apply_fault(content, o);
+            }
+        }
         Op::Fill { len, byte } => *content = Some(vec![*byte; *len]),
         Op::RandomFill { len, seed } => {
             let mut r = Rng::new(*seed);
@@ -264,6 +271,7 @@ pub fn fault_name(op: &Op) -> &'static str {
         Op::BitFlip { .. } => "bit_flip",
         Op::SetBytes { .. } => "set_bytes(count/index/version)",
         Op::Replace(_) => "replace_content",
+        Op::Multi(_) => "compound_fault",
         Op::Fill { .. } => "degenerate_fill",
         Op::RandomFill { .. } => "degenerate_random",
         Op::Remove => "remove_file",
@@ -306,6 +314,7 @@ pub fn op_to_json(op: &Op) -> Json {
         Op::BitFlip { bit } => o.set("bit", Json::u(*bit)),
         Op::SetBytes { offset, data } => o.set("offset", Json::u(*offset)).set("data", Json::s(&hex(data))),
         Op::Replace(b) => o.set("data", Json::s(&hex(b))),
+        Op::Multi(ops) => o.set("ops", Json::Arr(ops.iter().map(op_to_json).collect())),
         Op::Fill { len, byte } => o.set("len", Json::u(*len)).set("byte", Json::u(*byte as usize)),
         Op::RandomFill { len, seed } => o.set("len", Json::u(*len)).set("seed", Json::Int(*seed as i128)),
         Op::Remove => o,
@@ -330,6 +339,13 @@ pub fn op_from_json(j: &Json) -> Result<Op, String> {
         "bit_flip" => Op::BitFlip { bit: int("bit")? as usize },
         "set_bytes(count/index/version)" => Op::SetBytes { offset: int("offset")? as usize, data: bytes("data")? },
         "replace_content" => Op::Replace(bytes("data")?),
+        "compound_fault" => {
+            let mut v = Vec::new();
+            for o in j.get("ops").and_then(|v| v.arr()).ok_or("ops")? {
+                v.push(op_from_json(o)?);
+            }
+            Op::Multi(v)
+        }
         "degenerate_fill" => Op::Fill { len: int("len")? as usize, byte: int("byte")? as u8 },
         "degenerate_random" => Op::RandomFill { len: int("len")? as usize, seed: int("seed")? as u64 },
         "remove_file" => Op::Remove,
@@ -660,6 +676,15 @@ fn enumerate_base(seed: u64, run: u64, base: &[u8], exhaustive_bits: bool, rng: 
         }
     }
     let lay = layout(base);
+    // instants at which the intact file is resolved again after each repaired fault: inside the
+    // intervals of its first and last transitions and in between
+    let mut restore_instants: Vec<i64> = instants.iter().cloned().filter(|t| *t >= 0 && *t < 1 << 33).collect();
+    restore_instants.sort_unstable();
+    restore_instants.dedup();
+    if restore_instants.len() > 4 {
+        let l = restore_instants.len();
+        restore_instants = vec![restore_instants[0], restore_instants[l / 3], restore_instants[2 * l / 3], restore_instants[l - 1]];
+    }
     let mut found: Vec<Violation> = Vec::new();
     let mut keys_seen = std::collections::BTreeSet::new();
     let mut try_fault = |fault: Op, family: &str, stats: &mut Stats, n: &mut u64| {
@@ -677,6 +702,31 @@ fn enumerate_base(seed: u64, run: u64, base: &[u8], exhaustive_bits: bool, rng: 
             stats.inc("c19.outcome.violation_scenarios");
             if keys_seen.insert(k) {
                 found.push(report(seed, run, family, base, Some(fault), lookup, f));
+            }
+            return;
+        }
+        // the damage is repaired: the intact file is back and the process keeps resolving
+        // (A -> damaged B -> A again: nothing of B may survive in what the reader kept)
+        host.fs.set_content(Some(base.to_vec()));
+        for t in restore_instants.iter() {
+            host.clock.set(Instant::new(*t as u64, 0));
+            let out = guarded(|| Offset::Local.resolve());
+            stats.inc("c19.lookups.local_path_after_repair");
+            if let Err(p) = out.result {
+                let f = Fail { invariant: "L0-panic", step: 0, observed: format!("Offset::Local.resolve() on the repaired (intact) file panicked: {} ({}:{})", p.msg, p.file, p.line), panic: Some(p) };
+                let k = format!("{}:{:?}", f.invariant, f.panic.as_ref().map(|p| p.key()));
+                stats.inc("c19.outcome.violation_scenarios");
+                if keys_seen.insert(k) {
+                    let look = |tt: i64| Op::LookupLocal { secs: tt as u64, nanos: 0, what: 0 };
+                    let mut ops: Vec<Op> = restore_instants.iter().map(|x| look(*x)).collect();
+                    ops.push(fault.clone());
+                    ops.extend(restore_instants.iter().map(|x| look(*x)));
+                    ops.push(Op::Replace(base.to_vec()));
+                    ops.extend(restore_instants.iter().map(|x| look(*x)));
+                    let sc = Scenario { base: Some(base.to_vec()), ops };
+                    found.push(to_violation(seed, run, family, &sc, &f));
+                }
+                return;
             }
         }
     };
@@ -767,6 +817,20 @@ fn enumerate_base(seed: u64, run: u64, base: &[u8], exhaustive_bits: bool, rng: 
                     let mut d = vec![if v[0] == 0x80 { 0u8 } else { 0xFF }; w];
                     d[0] = v[0];
                     try_fault(Op::SetBytes { offset: o + k * w, data: d }, "F11-table-order", stats, &mut n);
+                }
+            }
+            // a duplicated record that also carries a dangling type index (two faults together)
+            if let Some((io, ilen)) = l.type_index_arrays.iter().find(|(io, _)| *io == o + cnt * w).cloned() {
+                let tc = *l.typecnt.iter().max().unwrap_or(&1);
+                for &k in picks.iter().filter(|k| **k >= 1 && **k < ilen) {
+                    for bad in [tc.min(255) as u8, 255u8] {
+                        try_fault(
+                            Op::Multi(vec![Op::SetBytes { offset: o + k * w, data: rd(k - 1) }, Op::SetBytes { offset: io + k, data: vec![bad] }]),
+                            "F11-duplicate-record-with-bad-index",
+                            stats,
+                            &mut n,
+                        );
+                    }
                 }
             }
             // the whole table reversed; the whole table set to one value; last := first + small
